@@ -1,0 +1,13 @@
+#ifndef GOLDILOCKS_VERIF_HPP
+#define GOLDILOCKS_VERIF_HPP
+#ifdef GOLDILOCKS_VERIF
+// Verification hook (compiled only with -DGOLDILOCKS_VERIF): an optional tracer that the conformance
+// harness installs to observe every Poseidon permutation (input state, output state). Null by default.
+#include <stdint.h>
+typedef void (*goldilocks_verif_tracer_t)(int kind, const uint64_t *in, const uint64_t *out, uint64_t n);
+extern goldilocks_verif_tracer_t goldilocks_verif_tracer;
+#define GOLDILOCKS_VERIF_PERM_SEQ 0
+#define GOLDILOCKS_VERIF_PERM_AVX 1
+#define GOLDILOCKS_VERIF_PERM_AVX512 2
+#endif
+#endif
